@@ -684,3 +684,45 @@ def layout_programs(cond: Any, cond2: Optional[Any] = None) -> List[Tuple[str, s
     out.append(("store-load", prog(c + ["store 3", "load 3", "assert", "int 1", "return"])))
     out.append(("select", prog(["int 0"] + c + ["int 1", "select", "pop", "int 1", "return"])))
     return out
+
+
+# ---------------------------------------------------------------------------------------------
+# meaning-preserving textual noise (C15): every variant is validated against the semantics on its own
+# ---------------------------------------------------------------------------------------------
+
+
+def noisy(src: str, k: int) -> str:
+    """Comments, blank lines, indentation, trailing comments, renamed labels, re-spelled integers."""
+    import re as _re
+
+    lines = src.splitlines()
+    labels = [l[:-1] for l in (x.strip() for x in lines) if l.endswith(":") and " " not in l]
+    out: List[str] = []
+    for i, raw in enumerate(lines):
+        line = raw
+        toks = line.split()
+        if not toks:
+            out.append(line)
+            continue
+        if toks[0] != "#pragma":
+            # rename labels (definitions and references)
+            for lab in labels:
+                new = f"L_{lab}_x{k}"
+                if line.strip() == lab + ":":
+                    line = new + ":"
+                else:
+                    line = _re.sub(rf"(?<=\s){_re.escape(lab)}(?=\s|$)", new, line)
+            toks = line.split()
+            # re-spell decimal integer immediates of int / pushint
+            if toks[0] in ("int", "pushint") and len(toks) == 2 and toks[1].isdigit() and (i + k) % 3 == 0:
+                v = int(toks[1])
+                line = f"{toks[0]} " + (f"0x{v:x}" if (i + k) % 2 == 0 else (f"0{v:o}" if v else "0"))
+            if (i + k) % 4 == 1:
+                out.append("")
+            if (i + k) % 5 == 2:
+                out.append("  // a comment line with int 5 and bnz nowhere")
+            indent = ["", "  ", "\t", "    "][(i + k) % 4]
+            trail = ["", " // trailing", "", "   "][(i + 2 * k) % 4]
+            line = indent + line + trail
+        out.append(line)
+    return "\n".join(out) + "\n"
